@@ -212,8 +212,10 @@ Example history_inv_hyps_sat :
   map fst (run_history hs_history hs_s) = [Committed 2; Aborted E_OSError; Refused E_RuntimeError; NoChange; DryRun 3].
 Proof.
   split; [exact hs_inv|]. split; [repeat constructor|]. split; [|vm_compute; reflexivity].
-  intros e s' H. vm_compute in H.
-  repeat (destruct H as [H|H]; [discriminate H|]). exact H.
+  intros e s' H.
+  assert (B : forallb (fun r => match fst r with RollbackFailed _ => false | _ => true end)
+                      (run_history hs_history hs_s) = true) by (vm_compute; reflexivity).
+  rewrite forallb_forall in B. specialize (B _ H). discriminate B.
 Qed.
 
 (* 6. refusals *)
